@@ -670,6 +670,8 @@ func main() {
 		{"selCall", "dispatch.Call"}, {"selNotify", "dispatch.Notify"}, {"selHandleCancel", "dispatch.handleCancel"},
 		{"selReply", "callRequest.Reply"}, {"selReplyCompressed", "callCompressedRequest.Reply"},
 		{"selTaskLoop", "receiveHandler.taskLoop"},
+		{"selReceiveCancel", "receiveHandler.receiveCancel"}, {"selHandleReceiveDispatch", "receiveHandler.handleReceiveDispatch"},
+		{"selReceiveResponse", "receiveHandler.receiveResponse"},
 		{"selIsConnected", "transport.IsConnected"}, {"selErr", "transport.err"},
 		{"selWaitForConnection", "Connection.waitForConnection"}, {"selDoReconnect", "Connection.doReconnect"},
 		{"selTLSDial", "ConnectionTransportTLS.Dial"},
@@ -679,7 +681,7 @@ func main() {
 
 	// ---- transport.go / receiver.go / dispatch.go / call.go / request.go statement lists
 	for _, f := range [][2]string{
-		{"transportCloseStmts", "transport.Close"}, {"receiveFramesLoopStmts", "transport.receiveFramesLoop"},
+		{"transportCloseStmts", "transport.Close"}, {"transportCloseWithErrStmts", "transport.closeWithErr"}, {"receiveFramesLoopStmts", "transport.receiveFramesLoop"},
 		{"receiveFramesStmts", "transport.receiveFrames"},
 		{"getDispatcherStmts", "transport.getDispatcher"}, {"getReceiverStmts", "transport.getReceiver"},
 		{"isConnectedStmts", "transport.IsConnected"}, {"transportErrStmts", "transport.err"},
